@@ -495,7 +495,7 @@ class Wikicode(StringMixIn):
         *value* can be anything parsable by :func:`.parse_anything`.
         """
         nodes = parse_anything(value).nodes
-        for node in nodes:
+        for node in list(nodes):
             self.nodes.append(node)
 
     def remove(self, obj, recursive=True):
